@@ -7,6 +7,13 @@ in between – after every evaluation, and for every cells of every space at the
 The Lean side (Props/C02.lean) carries the theorem about the value layer's mechanism: the
 clearing modelx performs for an edit keeps every surviving value equal to the uncached
 denotation under the new definitions (see the property module for what is proved).
+
+Correspondence of the mechanism model (value layer): generated programs (cached and uncached cells in two
+spaces; references read by name and through attribute paths, from the reference's own space and from the other
+one) with histories mixing evaluations, value edits, reference edits (change, delete, create) and formula /
+cache-flag edits run on modelx and on the Lean driver (`St.setRef`, `St.delRef`, `St.setFormula` of
+Exec/Mech.lean); held values, trace graph and reference graph are compared after every operation.  The same
+histories are also judged by the oracle on the implementation alone.
 """
 import collections
 
@@ -108,9 +115,83 @@ class H(S.Hooks):
                 break
 
 
+# ----------------------------------------------------------------------------- value layer (mechanism model)
+
+XCFG = {
+    "weights": {"eval": 7, "reeval": 2, "set": 1, "clearat": 0.5, "clear": 0.3, "setref": 3, "delref": 0.6,
+                "setformula": 1.5, "setcached": 0.5},
+    "compare": ["values", "graph", "refgraph"],
+    "space_p": 0.4, "no_try_p": 0.6, "maxdepths": [None], "raise_p": 0.03, "none_p": 0.02, "catch_all_p": 0.1,
+    "min_ops": 10, "max_ops": 22, "min_cells": 3, "max_cells": 6,
+    "rule": "value layer: random programs (3-6 cells, cached and uncached, in two spaces; references read by name and "
+            "through attribute paths from either space) with histories of 10-22 evaluations, value edits, reference "
+            "edits (change / delete / create) and formula / cache-flag edits; non-trivial = an evaluation after an "
+            "edit returned a value different from the one the same query returned before",
+}
+
+X_EDITS = ("set", "clearat", "clearall", "setref", "delref", "setformula", "setcached")
+
+
+def _short(res):
+    """result without the traceback (a property of the path taken, not of the answer)"""
+    return res.split(" tb=")[0]
+
+
+def _has_try(case, upto):
+    from ..expr import subexprs, parse_sexp
+    bodies = [c["body"] for c in case["cells"]]
+    bodies += [parse_sexp(" ".join(op[2:])) for op in case["ops"][:upto] if op[0] == "setformula"]
+    return any(e[0] == "try" for b in bodies for e in subexprs(b))
+
+
+def xoracle(case, recs, out, stats):
+    """every answer of the live model = the answer of a model to which only the edits were applied"""
+    from .. import exec_props as X
+    from ..execworld import ExecImpl
+    last, nontrivial, edited = {}, False, False
+    for k, rec in enumerate(recs):
+        op = rec["op"]
+        if op[0] in X_EDITS:
+            edited = True
+        if op[0] != "eval":
+            continue
+        q = tuple(op)
+        got = _short(rec["impl"])
+        if edited and q in last and last[q] != got and got.startswith("ok"):
+            nontrivial = True
+        last[q] = got
+        fresh = ExecImpl(case["cells"], case["refs"], case["n_rn"], case["maxdepth"], log=False)
+        try:
+            for o in case["ops"][:k]:
+                if o[0] in X_EDITS:
+                    fresh.apply(o)
+            want = _short(fresh.apply(op))
+        finally:
+            fresh.close()
+        stats["oracle_fresh_queries"] += 1
+        if want != got:
+            # a formula that handles a failure (of a callee, of a read) keeps no record of what it depended on
+            key = KNOWN_CAUGHT if _has_try(case, k) else None
+            out.fail("%s returns %s but a model to which only the edits were applied returns %s" % (
+                " ".join(op), got, want), X.case_json(dict(case, ops=case["ops"][:k + 1])), key=key)
+            break
+    return nontrivial
+
+
 def run(ctx, out):
+    from .. import exec_props as X
+    sub = core.Outcome()
+    xstats = X.run_family(ctx, sub, XCFG, xoracle, 70, 1500, corpus_name="C02exec")
+    S.merge(out, sub)
     S.run_struct(ctx, out, "C02", CFG, H, 60, 1200, RULE, ops_range=(14, 30))
+    out.coverage["value_layer_mechanism"] = sub.coverage
+    out.coverage["evaluations"] = out.coverage.get("evaluations", 0) + sub.coverage.get("evaluations", 0)
 
 
 def replay(ctx, payload, out):
+    h = payload.get("history")
+    if isinstance(h, dict) and "cells_raw" in h:
+        from .. import exec_props as X
+        X.replay_family(ctx, payload, out, XCFG, xoracle)
+        return
     S.replay_struct(payload, out, H, CFG)
